@@ -136,3 +136,22 @@ fn bnd40_preprocess() {
         k += 1;
     }
 }
+
+// @harness id=bnd40_preprocess_general props=C12,C01,C04 kind=bnd tier=quick bound=payload<=40B fns=preprocess_payload,extract_payload_ff_padding,detect_payload_data_format,chunkify_payload stubs=alloc::fmt::format
+// Any word-aligned format-2 payload with at most 15 bytes of padding is accepted (memory safety incl. the
+// growth of the padding vector).
+#[kani::proof]
+#[kani::stub(alloc::fmt::format, stub_format_nonempty)]
+#[kani::unwind(42)]
+fn bnd40_preprocess_general() {
+    let data: [u8; NP] = kani::any();
+    let len: usize = kani::any();
+    kani::assume(len >= 1 && len <= NP);
+    let p = &data[..len];
+    let run = spec_ff_run(p);
+    kani::assume(run <= 15);
+    kani::assume(!spec_is_v0(p));
+    kani::assume(if run > 9 { (len - run) % 10 == 0 } else { len % 10 <= run });
+    let r = preprocess_payload(p);
+    assert!(r.is_ok(), "[C12][C01] a payload with at most 15 bytes of 0xFF padding is accepted");
+}
